@@ -10,6 +10,7 @@ RULE = ('one record per (digest, key, message, chunking): Hmac over every legacy
 ASSUMPTIONS = ['python hmac construction over hashlib / pure Keccak; block size of SHA-3/Keccak = sponge rate']
 FLOORS = {'evaluations': 2000, 'distinct': 1500}
 THOROUGH_ROUNDS = 150   # thorough tier: generator passes with derived seeds (runner.gen_rounds)
+EXTRA_CFGS = ['f32']   # the workload is also executed by the force-32bits build of the library; results must not change (runner.standard_check)
 DIGESTS = ['sha1', 'sha224', 'sha256', 'sha384', 'sha512', 'sha512_224', 'sha512_256', 'sha3_224', 'sha3_256', 'sha3_384', 'sha3_512',
            'keccak224', 'keccak256', 'keccak384', 'keccak512', 'ripemd160', 'blake2b:64', 'blake2b:32', 'blake2b:20', 'blake2b:1',
            'blake2s:32', 'blake2s:16', 'blake2s:5']
